@@ -641,6 +641,71 @@ Definition importer_gas (gas_limit : Z) (incl : list gtx) : option Z :=
   fold_left importer_gas_step incl (Some gas_limit).
 
 (* ===================================================================== *)
+(* Part 4d: the block context                                             *)
+(*   core/evm.go NewEVMContext / GetHashFn, core/vm opBlockhash: what a    *)
+(*   transaction can read of the block it runs in.                         *)
+(* ===================================================================== *)
+
+(* BlockNumber, Coinbase, Time, GasLimit and the GetHash function behind BLOCKHASH *)
+Record block_ctx := mkCtx { c_number : N; c_coinbase : N; c_time : N; c_gas_limit : N; c_hash : N -> N }.
+
+(* the block's own ancestry: number -> hash of the ancestor with that number,
+   followed from the header's parent hash (GetHashFn walks chain.GetHeader along
+   ParentHash); it is a function of the parent CHAIN, not of the block number *)
+Definition ancestry := N -> N.
+
+(* GetHashFn keeps a number -> hash cache (per message in the code as it is) *)
+Definition hash_memo := N -> option N.
+Definition hash_memo_ok (anc : ancestry) (hm : hash_memo) : Prop :=
+  forall n v, hm n = Some v -> anc n = v.
+
+(* opBlockhash: only the 256 most recent ancestors, zero otherwise; GetHashFn:
+   cache first, then the walk along the own parent chain *)
+Definition get_hash (anc : ancestry) (hm : hash_memo) (number : N) (n : N) : N :=
+  if (n <? number)%N && (number <=? n + 256)%N
+  then match hm n with Some v => v | None => anc n end
+  else 0%N.
+
+Section BlockCtx.
+  Variable St tx lg : Type.
+  (* transaction execution reads the block through its context *)
+  Variable exec_c : St -> block_ctx -> tx -> option (St * Z * bool * list lg).
+  Variable price : tx -> Z.
+  Variable resolve : evid -> option N.
+  Variable val_exists : St -> N -> bool.
+  Variable penalize : St -> N -> St * Z * lg.
+  Variable max_expired : N.
+  Variable view : St -> N -> reward_view.
+  Variable apply_rewards : St -> N -> rtp_out -> St * list lg.
+  Variable v5 : bool.
+  Variable threshold coeff : Z.
+  Variable ratios : per_role.
+  Variable freq : N.
+  Variable period_end : St -> N -> list tx -> St * list lg.
+  Variable commit : St -> N.
+  Variable receipt_hash : list (receipt lg) -> N.
+  Variable bloom : list (receipt lg) -> N.
+  (* header fields the rest of the model does not look at *)
+  Variable time_of gas_limit_of : header tx -> N.
+
+  Definition ctx_of (anc : ancestry) (hm : hash_memo) (h : header tx) : block_ctx :=
+    mkCtx (h_number h) (h_coinbase h) (time_of h) (gas_limit_of h) (get_hash anc hm (h_number h)).
+
+  (* Process with the context explicit: the ancestry of the block being executed
+     and whatever the hash cache holds when execution starts *)
+  Definition process_block_ctx (sc : sched) (m : memo) (anc : ancestry) (hm : hash_memo) (st0 : St) (h : header tx) :=
+    process_block St tx lg (fun st _ t => exec_c st (ctx_of anc hm h) t) price resolve val_exists penalize
+                  max_expired view apply_rewards v5 threshold coeff ratios freq period_end commit receipt_hash bloom
+                  sc m st0 h.
+
+  (* the builder, for a context given by its inputs *)
+  Definition build_block_ctx (sc : sched) (m : memo) (c : block_ctx) (st0 : St) (cands : list tx) (pool : list evid) :=
+    build_block St tx lg (fun st _ t => exec_c st c t) price resolve val_exists penalize
+                max_expired view apply_rewards v5 threshold coeff ratios freq period_end commit receipt_hash bloom
+                sc m st0 (c_number c) (c_coinbase c) cands pool.
+End BlockCtx.
+
+(* ===================================================================== *)
 (* Part 4b: forks - the side-chain import path                            *)
 (*   core/blockchain.go insertSidechain / verifyAllSideChainBlocks, the    *)
 (*   re-import after it, and the ordinary import of a whole branch.        *)
